@@ -389,7 +389,15 @@ fn exec(w: &mut Worker, o: &Value) {
         "drop" => {
             if let Some(s) = w.own.get_mut(i) {
                 let h = s.h.take();
+                let had = h.is_some();
                 drop(h);
+                if had {
+                    // this party is gone: exclusive ownership it had obtained may pass to another handle
+                    la::set_window(0);
+                    let mut e = LogEv::new("unexcl", tnum());
+                    e.h = s.gid;
+                    push(e);
+                }
             }
         }
         "try_into_mut" | "into_mut" | "into_vec" => {
@@ -585,14 +593,23 @@ fn exec(w: &mut Worker, o: &Value) {
         "advance" => {
             if let Some(s) = w.own.get_mut(i) {
                 let k = n.min(s.exp.len());
-                match s.h.as_mut() {
-                    Some(H::B(bb)) => bb.advance(k),
-                    Some(H::M(m)) => m.advance(k),
-                    _ => {}
-                }
-                s.exp.drain(..k);
-                if s.addr != 0 {
-                    s.addr += k;
+                // (only Bytes / BytesMut handles are cursors: a slot that holds a Vec or nothing stays as it is)
+                let did = match s.h.as_mut() {
+                    Some(H::B(bb)) => {
+                        bb.advance(k);
+                        true
+                    }
+                    Some(H::M(m)) => {
+                        m.advance(k);
+                        true
+                    }
+                    _ => false,
+                };
+                if did {
+                    s.exp.drain(..k);
+                    if s.addr != 0 {
+                        s.addr += k;
+                    }
                 }
             }
         }
